@@ -75,6 +75,33 @@ theorem loop_progress (v : List Byte) (off : Nat) (as : List Ans) :
       simp only [hk', if_false]
       exact ih _ _ (fun a ha => hall a (by simp [ha])) (by simp at hl; omega)
 
+/-- A failure — an error, or a transfer of zero bytes — that arrives before the block is complete ends the loop in a panic. -/
+theorem loop_failure_surfaces (v : List Byte) (off : Nat) (bad : Ans) (rest : List Ans)
+    (hbad : bad = .err ∨ bad = .wrote 0) (pre : List Ans) :
+    ∀ (cur : File) (n : Nat), (∀ a ∈ pre, ∃ k, a = .wrote k ∧ 0 < k) → n + (pre.map Ans.count).sum < v.length →
+      ∃ g, writeLoop v off cur n (pre ++ bad :: rest) = some (.panic g) := by
+  induction pre with
+  | nil =>
+    intro cur n _ hs
+    simp at hs
+    unfold writeLoop
+    have hd : ¬ v.length ≤ n := by omega
+    rcases hbad with rfl | rfl
+    · simp [hd]
+    · simp [hd]
+  | cons a pre ih =>
+    intro cur n hall hs
+    obtain ⟨k, rfl, hk⟩ := hall a (by simp)
+    simp [Ans.count] at hs
+    have hd : ¬ v.length ≤ n := by omega
+    have hk' : ¬ (min k (v.length - n) = 0) := by omega
+    have hmin : min k (v.length - n) = k := by omega
+    show ∃ g, writeLoop v off cur n (Ans.wrote k :: (pre ++ bad :: rest)) = some (.panic g)
+    unfold writeLoop
+    simp only [hd, if_false, hk']
+    rw [hmin]
+    exact ih _ _ (fun a ha => hall a (by simp [ha])) (by omega)
+
 /-! read loop -/
 
 theorem partialR_zero (buf0 f : File) (off : Nat) : PartialR buf0 f off 0 buf0 := by
